@@ -1,5 +1,5 @@
 (* C09 — writer output does not depend on how the same document is presented.  Statements only. *)
-From Ebml Require Import Base Tools Spec Writer Reader Pure Encode Proofs.Tactics Proofs.SpecProofs Proofs.WriterProofs Proofs.RoundTrip Proofs.WriteEnc Proofs.WriteFull.
+From Ebml Require Import Base Tools Spec Writer Reader Pure Encode Proofs.Tactics Proofs.SpecProofs Proofs.WriterProofs Proofs.RoundTrip Proofs.WriteEnc Proofs.WriteFull Proofs.WriteMixed.
 
 (* the deprecated unknown-size call is the option-based one *)
 Theorem C09_deprecated : forall sp st t, wstep sp st (OpWriteUnknown t) = wstep sp st (OpWrite t {| o_len := None; o_unknown := true |}).
@@ -45,7 +45,8 @@ Example C09_ex :
                       OpWrite (TEnd 16643) o_default; OpWrite (TEnd 129) o_default; OpIntoInner] [WAcc 1; WInt; WAcc 3]).
 Proof. vm_compute. reflexivity. Qed.
 
-(* ------------------------------------------------------------------ whole documents (Proofs/WriteEnc.v, Proofs/WriteFull.v) *)
+(* ------------------------------------------------------------------ whole documents (Proofs/WriteEnc.v, Proofs/WriteFull.v,
+   Proofs/WriteMixed.v) *)
 (* a conforming document written tag by tag (Start / elements / End; explicit widths or defaults; unknown size by option)
    gives its structural encoding [enc_forest], in which options show up only in the size fields they govern *)
 Theorem C09_separate_calls_encode : forall sp d f, Forall (wconf sp d []) f ->
@@ -62,3 +63,59 @@ Proof. exact full_encodes. Qed.
 Theorem C09_full_equals_separate : forall sp f, Forall (fconf sp true []) f -> Forall all_known f ->
   snd (run_writer sp (fops true f) []) = snd (run_writer sp (wops_forest true f) []).
 Proof. exact full_equals_separate. Qed.
+
+(* arbitrary mixes: at every master independently, either one Full item (everything inside is part of the item: default
+   options, known sizes) or Start, children (each by its own choice, [pres]), End.  [pops_forest d f ps] are the calls,
+   [pconf_forest sp d [] f ps] the conformance the chosen presentation needs; the bytes are the structural encoding, which
+   does not mention the presentation ... *)
+Theorem C09_mixed_encodes : forall sp d f ps, pconf_forest sp d [] f ps ->
+  Forall (fun r => fst r = WOk) (fst (run_writer sp (pops_forest d f ps) [])) /\
+  snd (run_writer sp (pops_forest d f ps) []) = enc_forest f.
+Proof. exact mixed_encodes. Qed.
+
+(* ... hence any two presentations of the same document give byte-identical output *)
+Theorem C09_presentation_irrelevant : forall sp d f ps1 ps2, pconf_forest sp d [] f ps1 -> pconf_forest sp d [] f ps2 ->
+  snd (run_writer sp (pops_forest d f ps1) []) = snd (run_writer sp (pops_forest d f ps2) []).
+Proof. exact presentation_irrelevant. Qed.
+
+(* the two extreme presentations above are instances: all separate = [map all_sep f], all Full = [[]] *)
+Theorem C09_mixed_all_separate : forall sp d f, Forall (wconf sp d []) f ->
+  pops_forest d f (map all_sep f) = wops_forest d f /\ pconf_forest sp d [] f (map all_sep f).
+Proof. exact mixed_all_separate. Qed.
+
+Theorem C09_mixed_all_full : forall sp d f, Forall (fconf sp d []) f ->
+  pops_forest d f [] = fops d f /\ pconf_forest sp d [] f [].
+Proof. exact mixed_all_full. Qed.
+
+(* an unknown-size master 129 holding an element, a master 16643 (with an element and a nested master 16647) and a master
+   16645, written (1) call by call: 12 calls, (2) as one Full item with the unknown-size option: 1 call, (3) mixed: 129 by
+   Start(unknown) / End, 16643 with everything inside as one Full item, its siblings call by call: 7 calls.  Identical bytes,
+   the structural encoding. *)
+Example C09_mixed_ex :
+  let sp := [ {| e_id := 129; e_ty := DMaster; e_path := [] |};
+              {| e_id := 16644; e_ty := DUInt; e_path := [PId 129] |};
+              {| e_id := 16643; e_ty := DMaster; e_path := [PId 129] |};
+              {| e_id := 16642; e_ty := DBinary; e_path := [PId 129; PId 16643] |};
+              {| e_id := 16647; e_ty := DMaster; e_path := [PId 129; PId 16643] |};
+              {| e_id := 16648; e_ty := DUInt; e_path := [PId 129; PId 16643; PId 16647] |};
+              {| e_id := 16645; e_ty := DMaster; e_path := [PId 129] |};
+              {| e_id := 16646; e_ty := DUtf8; e_path := [PId 129; PId 16645] |} ] in
+  let f := [ RNode 129 None
+               [ RLeaf 16644 (VU 5) [5%N] 1%nat;
+                 RNode 16643 (Some 1%nat) [ RLeaf 16642 (VB [7%N; 8%N]) [7%N; 8%N] 1%nat;
+                                            RNode 16647 (Some 1%nat) [ RLeaf 16648 (VU 300) [1%N; 44%N] 1%nat ] ];
+                 RNode 16645 (Some 1%nat) [ RLeaf 16646 (VS [104%N; 105%N]) [104%N; 105%N] 1%nat ] ] ] in
+  let separate := map all_sep f in
+  let full := [PFull] in
+  let mixed := [PSep [PFull; PFull; PSep [PFull]]] in
+  let out ps := snd (run_writer sp (pops_forest true f ps) []) in
+  let calls ps := map fst (fst (run_writer sp (pops_forest true f ps) [])) in
+  pops_forest true f mixed =
+    [OpWrite (TStart 129) {| o_len := None; o_unknown := true |};
+     OpWrite (TElem 16644 (VU 5)) o_default;
+     OpWrite (TFull 16643 [TElem 16642 (VB [7%N; 8%N]); TFull 16647 [TElem 16648 (VU 300)]]) o_default;
+     OpWrite (TStart 16645) o_default; OpWrite (TElem 16646 (VS [104%N; 105%N])) o_default; OpWrite (TEnd 16645) o_default;
+     OpWrite (TEnd 129) o_default] /\
+  calls separate = repeat WOk 12 /\ calls full = repeat WOk 1 /\ calls mixed = repeat WOk 7 /\
+  out separate = out full /\ out full = out mixed /\ out mixed = enc_forest f.
+Proof. vm_compute. repeat split; reflexivity. Qed.
